@@ -53,6 +53,7 @@ fn main() {
         "C05" => vh::props::c05::C05,
         "C06" => vh::props::c06::C06,
         "C07" => vh::props::c07::C07,
+        "C08" => vh::props::c08::C08,
         "C09" => vh::props::c09::C09,
         "C10" => vh::props::c10::C10,
         "C11" => vh::props::c11::C11,
